@@ -403,7 +403,7 @@ func runPipeline(c *simrun.Ctx) *simrun.Violation {
 			fp.av = simval.Gen(t, md, cfg)
 			fp.foreign = t.Chance("foreign", 1, 3)
 			if fp.foreign {
-				fp.wire = (&simval.EncodeOpts{T: t, Shuffle: true, Unknowns: true, DupMapKeys: t.Chance("dupkeys", 1, 2), KeyOnlyEntries: t.Chance("keyonly", 1, 3)}).Encode(fp.av)
+				fp.wire = (&simval.EncodeOpts{T: t, Shuffle: true, Unknowns: true, Redundant: t.Chance("redundant", 1, 2), DupMapKeys: t.Chance("dupkeys", 1, 2), KeyOnlyEntries: t.Chance("keyonly", 1, 3)}).Encode(fp.av)
 			} else {
 				// the producer's message is built here, with a tape-drawn history
 				// (struct literal with empty non-nil containers and spare capacity,
